@@ -59,16 +59,32 @@ def strip_lean_comments(text):
     return '\n'.join(l.split('--')[0] for l in text.split('\n'))
 
 
-def forbidden_scan():
+def import_closure(roots):
+    """Lean source files (relative module names) reachable from the given modules through `import BddVerif.…`"""
+    seen, todo = set(), list(roots)
+    while todo:
+        m = todo.pop()
+        if m in seen:
+            continue
+        path = os.path.join(LEAN, *m.split('.')) + '.lean'
+        if not os.path.exists(path):
+            continue
+        seen.add(m)
+        for mm in re.findall(r'^\s*import\s+(BddVerif(?:\.[A-Za-z0-9_]+)+)', open(path).read(), flags=re.M):
+            todo.append(mm)
+    return seen
+
+
+def forbidden_scan(pid):
+    """forbidden tokens in the Lean sources this property's theorems, audit and driver depend on"""
     hits = []
-    for root, _, files in os.walk(os.path.join(LEAN, 'BddVerif')):
-        for f in files:
-            if f.endswith('.lean'):
-                p = os.path.join(root, f)
-                for ln, line in enumerate(strip_lean_comments(open(p).read()).split('\n'), 1):
-                    if FORBIDDEN.search(line):
-                        hits.append('%s:%d: %s' % (os.path.relpath(p, LEAN), ln, line.strip()[:80]))
-    return hits
+    mods = import_closure(['BddVerif.Props.' + pid, 'BddVerif.Audit.' + pid, 'BddVerif.Drive.%sMain' % pid])
+    for m in sorted(mods):
+        p = os.path.join(LEAN, *m.split('.')) + '.lean'
+        for ln, line in enumerate(strip_lean_comments(open(p).read()).split('\n'), 1):
+            if FORBIDDEN.search(line):
+                hits.append('%s:%d: %s' % (os.path.relpath(p, LEAN), ln, line.strip()[:80]))
+    return hits, len(mods)
 
 
 def audit(pid, theorems):
@@ -209,7 +225,8 @@ def check(pid, tier, seed):
             broken_ties.append('theorem:%s: depends on axioms %s' % (th, ax))
         else:
             discharged += 1
-    hits = forbidden_scan()
+    hits, n_mods = forbidden_scan(pid)
+    notes.append('forbidden-token scan over %d Lean modules (import closure of the property)' % n_mods)
     if hits:
         broken_ties.append('forbidden tokens in Lean sources: ' + '; '.join(hits[:5]))
     if tier == 'thorough' and ok_build:
